@@ -6,7 +6,7 @@
    Proofs/CheckC18Marks.v (op 1), CheckC18Trav.v (op 2), CheckC18Scc.v (op 3), CheckC18Graph.v (ops 4-6),
    CheckC18Sub.v (ops 7, 8), CheckC18Dot.v (ops 9, 10), CheckC18Hist.v (op 11).  Closed under the global context. *)
 From Coq Require Import Permutation Sorted.
-From MM Require Import Base.Num Base.GCGraph Base.GCReach Model.Marks Spec.Dfs Spec.Scc Model.Graph Proofs.Graph Model.Subgraph Proofs.Subgraph Model.Dot Proofs.Dot
+From MM Require Import Base.Num Base.GCGraph Base.GCReach Model.Marks Spec.Dfs Spec.Scc Model.Graph Proofs.Graph Model.Subgraph Proofs.Subgraph Proofs.SubgraphAny Model.Dot Proofs.Dot
   Check.C18 Proofs.CheckBase Proofs.CheckC18Base
   Proofs.CheckC18Marks Proofs.CheckC18Trav Proofs.CheckC18Scc Proofs.CheckC18Graph Proofs.CheckC18Sub Proofs.CheckC18Dot Proofs.CheckC18Hist.
 Local Open Scope Z_scope.
@@ -68,7 +68,8 @@ Lemma case_meaning_traversals : forall rest,
        (flags <> 0 -> length cof = length g /\
           forall c v, In v (comp_at compsN c) -> nth (N.to_nat v) cof (-1) = Z.of_nat c) /\
        length outsN = length compsN /\
-       (if Z.testbit flags 1 then scc_edges_spec g compsN outsN else Forall (fun l => l = []) outsN)).
+       (if Z.testbit flags 1 then scc_edges_spec g compsN outsN else Forall (fun l => l = []) outsN) /\
+       Forall (StronglySorted N.lt) outsN).
 Proof. intro rest. repeat match goal with |- _ /\ _ => split | |- _ <-> _ => split end; exact (fun H => H). Qed.
 Lemma case_meaning_graphops : forall rest,
   (bigraph_case_ok rest <-> exists g insN,
@@ -102,7 +103,7 @@ Lemma case_meaning_graphops : forall rest,
      let nodesN := NsZ nodes in
      let edgesN := map (fun e => (Z.to_N (fst e), Z.to_N (snd e))) edges in
      let neg := existsb (fun x => x <? 0) (nodes ++ eflat) in
-     sg_matches (if neg then None else subgraph_keep g nodesN edgesN) status obs /\
+     sg_matches (if neg then None else keep_any g nodesN edgesN) status obs /\
      (neg = false -> keep_wf g nodesN edgesN ->
         status = 0 /\ exists s, Forall2 sg_row s obs /\ keep_spec_concl g nodesN edgesN s) /\
      (neg = false -> (exists v, In v nodesN /\ (g_n g <= v)%N) \/ ~ NoDup nodesN -> status = 2)) /\
